@@ -5,6 +5,7 @@ package replica
 import (
 	"fmt"
 	"os"
+	"syscall"
 
 	fibmap "github.com/frostschutz/go-fibmap"
 	"github.com/openebs/jiva/types"
@@ -124,3 +125,13 @@ func zzFoldUnit(dst, src *zzFile, x int, p bool) {
 	dst.File.WriteAt(buf, int64(x)*s)
 }
 func zzFoldPresent(dst *zzFile, b int, p bool) { dst.File.Sync() }
+
+// native variant of the scaled extent batch (see efile_sym.go): the real FIEMAP ioctl is
+// asked for the scaled number of extents, so the walker has to continue as it must on a
+// file with more extents than one batch holds
+func zzFiemap(fd uintptr, start, length uint64, size uint32) ([]fibmap.Extent, syscall.Errno) {
+	if size >= 1024 {
+		size = size / 1024
+	}
+	return fibmap.Fiemap(fd, start, length, size)
+}
